@@ -36,8 +36,11 @@ class Case:
         self.transformers = []
 
     def ident(self):
-        return {'lang': self.lang, 'seed': self.seed, 'switches': list(self.switches),
-                'max_depth': self.max_depth}
+        d = {'lang': self.lang, 'seed': self.seed, 'switches': list(self.switches),
+             'max_depth': self.max_depth}
+        if getattr(self, 'pool_seed', None) is not None:
+            d['pool_seed'] = self.pool_seed
+        return d
 
 
 def _call(observers, name, *a):
